@@ -30,6 +30,7 @@
 
 import abc
 import inspect
+import threading
 from enum import Enum
 from types import FrameType
 
@@ -85,6 +86,7 @@ class LocationAction(object):
         self.__stats = TracepointExecutionStats()
         self.__action_type = action_type
         self.__location: Optional['Location'] = None
+        self.__lock = threading.Lock()
 
     @property
     def id(self) -> str:
@@ -130,6 +132,16 @@ class LocationAction(object):
         :return: the time in ms
         """
         return self.__get_int(FIRE_PERIOD, 1000)
+
+    @property
+    def lock(self):
+        """
+        The lock to hold while this action is checked, processed and recorded.
+
+        Several threads can reach the same tracepoint at the same time, the fire count and fire period can only be
+        kept if the check (can_trigger) and the record (record_triggered) are one step.
+        """
+        return self.__lock
 
     @property
     def action_type(self) -> ActionType:
